@@ -15,7 +15,7 @@ from engine import common
 from harness import sessions, table
 
 PROPS = {'C10'}
-SESSIONS = {'quick': ['S2', 'S4'], 'thorough': ['S1', 'S2', 'S3', 'S4', 'S5', 'S6']}
+SESSIONS = {'quick': ['S2', 'S4', 'S7', 'S8'], 'thorough': ['S1', 'S2', 'S3', 'S4', 'S5', 'S6', 'S7', 'S8']}
 
 
 def _transcript_case(name, props):
@@ -66,6 +66,9 @@ def cases(tier):
     for i in range(4):
         cs.append((table.case_thread_playing_iteration, f'seat thread: play loop iteration, position {i} (own seat, declarer, seat on turn, trick symbolic)', dict(props=PROPS, i=i)))
     cs.append((table.case_thread_bidding_iteration, 'seat thread: auction loop iteration (own seat, seat on turn symbolic)', dict(props=PROPS)))
+    from harness import C08
+    cs.append((C08.case_assembly, 'Server.run over two boards configured with the same Hands object: each board deals the configured cards',
+               dict(n=2, shared=True, props=PROPS)))
     for n in SESSIONS['thorough' if tier == 'thorough' else 'quick']:
         cs.append((_transcript_case, f'byte streams of session {n} against the protocol transcript', dict(name=n, props=PROPS)))
     return cs
@@ -84,7 +87,7 @@ META = dict(
                  'streams of a session do not depend on the schedule (C09: deadlock-freedom + trace determinism, checked there)'],
     rule='feasible paths of one loop iteration taken from the source; plus message-by-message comparison of recorded streams',
     explanation='loop-cut symbolic execution of the relay code and an independent transcript oracle for recorded sessions',
-    required_outcomes=['seat thread iteration', 'seat thread auction iteration', 'deal messages', 'call relayed', 'card relayed', 'card relayed with dummy disclosure', 'session transcript compared'],
+    required_outcomes=['session assembled', 'seat thread iteration', 'seat thread auction iteration', 'deal messages', 'call relayed', 'card relayed', 'card relayed with dummy disclosure', 'session transcript compared'],
 )
 
 
